@@ -1251,6 +1251,7 @@ def t_line_terminated(facts, res, tier):
 def t_opt_load_siblings(facts, res, tier):
     fn = facts.fn("optimize", "AssemblyCode")
     found = {}
+    polar = {}
     for n in walk(fn["body"]):
         if n.get("k") != "match" or "mnemonic" not in norm(n["e"]):
             continue
@@ -1268,6 +1269,35 @@ def t_opt_load_siblings(facts, res, tier):
                     if not any("dasm_operand" in c for c in conds):
                         continue
                     found.setdefault(reg, []).append((x, conds))
+                    polar.setdefault(reg, []).append([(c, br) for (kk, _, c, br) in g if kk == "if"])
+    # a load that is removed although the flags were not those of its register (the look-ahead path) has not set them:
+    # the arm may claim `flags = <reg>` only for a load that stays
+    from scopes import scoped as _scoped
+    for n, env, doms in _scoped(fn):
+        if n.get("k") == "assign" and root_name(n["l"]) == "flags":
+            m = re.match(r"^FlagsState::([AXY])$", norm(n["r"]))
+            if not m:
+                continue
+            armreg = None
+            arm_at = None
+            for i_d, d in enumerate(doms):
+                if d[0] == "arm" and "mnemonic" in norm(d[1]) and isinstance(d[2], dict):
+                    pt = pat_text(d[2]).strip()
+                    mm = re.match(r"^(?:AsmMnemonic::)?(LDA|LDX|LDY)$", pt)
+                    if mm:
+                        armreg = mm.group(1)
+                        arm_at = i_d
+            if armreg is None or armreg[-1] != m.group(1):
+                continue
+            # removals in this arm that are decided although flags == reg does not hold (no such test, or its else branch)
+            want = "flags==FlagsState::%s" % m.group(1)
+            unguarded = [gs for gs in polar.get(armreg, []) if not any(want in c0.replace(" ", "").replace("(", "").replace(")", "") and br is True for (c0, br) in gs)]
+            inner = doms[arm_at + 1:]
+            kept_only = any(d[0] == "cond" and ((d[2] and norm(d[1]).replace(" ", "") == "!remove_second") or (not d[2] and norm(d[1]).replace(" ", "") == "remove_second")) for d in inner)
+            key = "T-OPT-LOAD-SIBLINGS:%s:claim" % armreg
+            res.inst(key, True, {"removals_without_flag_test": len(unguarded), "claim_only_if_kept": kept_only})
+            if unguarded and not kept_only:
+                res.fail(key, facts.where(fn, n), "the %s arm of optimize() records `flags = FlagsState::%s` even when it has just decided to delete the load on its look-ahead path (where the flags were not %s's): the next rule that trusts the flag knowledge deletes a load a branch depends on (`q = 0; X = 5; a = 0; b = 0; if (!b) r = 1;` branches on X)" % (armreg, m.group(1), m.group(1)))
     for reg in ("LDA", "LDX", "LDY"):
         key = "T-OPT-LOAD-SIBLINGS:%s" % reg
         res.inst(key, True, {"removal_sites": len(found.get(reg, []))})
